@@ -110,7 +110,15 @@ inline Bytes gen_payload(Src &s, size_t len) {
 
 inline Bytes gen_name(Src &s, unsigned style, bool big) {
     Bytes n;
-    switch (style % 4) {
+    switch (style % 8 == 7 ? 4 : style % 4) {
+    case 4: {  // long common prefix (100..300 bytes, around 127/128 and 255/256) + a short distinguishing tail
+        static const uint16_t pl[] = {100, 126, 127, 128, 129, 254, 255, 256, 257, 300};
+        size_t len = pl[(style >> 3) % 10];
+        n.assign(len, (uint8_t)('k'));
+        unsigned tail = s.u8() % 3;
+        for (unsigned i = 0; i < tail; i++) n.push_back(kNameAlphabet[s.u8() % sizeof kNameAlphabet]);
+        break;
+    }
     case 0: {  // collision-rich alphabet, length 0..3
         unsigned len = s.u8() % 4;
         for (unsigned i = 0; i < len; i++) n.push_back(kNameAlphabet[s.u8() % sizeof kNameAlphabet]);
